@@ -42,6 +42,9 @@ Oracle calibration
   * A subclass's accessible referring to a datatype object of the same accessible of its base class (Command.merge hands on the
     inherited argument / result object without copying it) is counted as a latent hazard, not reported: only an observable
     change of the base class is a violation (it shows in the differential observation).
+  * The module-global registries a class definition can write to (frappy.params.PREDEFINED_ACCESSIBLES, rwhandler.Handler.
+    method_names, generalConfig.defaults) are compared before / after every def step: a change is counted as a latent hazard
+    (outcome), a violation only when an observable difference of some class / instance follows.
   * A class and its subclass legitimately share the *same* Accessible object for an accessible the subclass does not
     override (plain Python inheritance of the class attribute).  Objects reached through the very same Accessible
     object from two classes are therefore not reported by the identity walk; sharing between an instance and
@@ -324,6 +327,50 @@ FAMILIES = {
         },
         'quick_mutations': ['take', 'manual', 'set', 'reg'],
     },
+    # Limit parameters defined in plain mixins shared by classes with different limit sets (the generated check_<p> is attached to
+    # the class defining the limit); limits of predefined parameters next to unrelated roots with an ordinary parameter of that name
+    'limits': {
+        'prelude': ['Bx', 'LowLimit', 'HighLimit', 'RangeLimit'],
+        'classes': {
+            'Bx': {'bases': ['Module'], 'body': {
+                'x': ['P', {'description': 'x', 'datatype': ['double', {'min': -100, 'max': 100}], 'readonly': False, 'default': 5}],
+            }},
+            'LowLimit': {'bases': ['object'], 'body': {'x_min': ['L', {}]}},
+            'HighLimit': {'bases': ['object'], 'body': {'x_max': ['L', {}]}},
+            'RangeLimit': {'bases': ['object'], 'body': {'x_limits': ['L', {}]}},
+            'Both': {'bases': ['LowLimit', 'HighLimit', 'Bx'], 'body': {}},
+            'LowOnly': {'bases': ['LowLimit', 'Bx'], 'body': {}},
+            'HighOnly': {'bases': ['HighLimit', 'Bx'], 'body': {'write_x': ['M', 'w:x']}},
+            'Lims': {'bases': ['RangeLimit', 'Bx'], 'body': {}},
+            'LowLims': {'bases': ['RangeLimit', 'LowLimit', 'Bx'], 'body': {}},
+            'Mot': {'bases': ['Drivable'], 'body': {'target_max': ['L', {}], 'value_min': ['L', {}], 'write_target': ['M', 'w:target']}},
+            'Stg': {'bases': ['Drivable'], 'body': {
+                'target_max': ['P', {'description': 'highest target so far', 'datatype': ['double', {}], 'default': 0}],
+                'value_min': ['P', {'description': 'lowest value so far', 'datatype': ['double', {}], 'default': 0}],
+                'x_min': ['P', {'description': 'an ordinary parameter', 'datatype': ['double', {}], 'default': 0, 'readonly': False}],
+            }},
+        },
+        'instantiable': ['Bx', 'Both', 'LowOnly', 'HighOnly', 'Lims', 'LowLims', 'Mot', 'Stg'],
+        'quick_instantiable': ['Both', 'LowOnly', 'HighOnly', 'Lims', 'Mot', 'Stg'],
+        'configs': [
+            {},
+            {'x_min': {'value': 2}},
+            {'x_max': {'value': 8}},
+            {'x_limits': {'value': [1, 9]}},
+            {'target_max': {'value': 50}},
+            {'x_min': {'value': 2}, 'x_max': {'value': 8}},
+        ],
+        'configs_for': {'Bx': [0], 'Both': [0, 1, 2, 5], 'LowOnly': [0, 1], 'HighOnly': [0, 2], 'Lims': [0, 3], 'LowLims': [0, 1, 3],
+                        'Mot': [0, 4], 'Stg': [0, 4]},
+        'quick_configs': [0, 1, 2, 3, 4],
+        'mutations': {
+            'setmin': {'needs': ['x_min', 'x'], 'op': ['assign', 'x_min', 3]},
+            'setmax': {'needs': ['x_max', 'x'], 'op': ['assign', 'x_max', 6]},
+            'setlim': {'needs': ['x_limits'], 'op': ['assign', 'x_limits', [2, 7]]},
+            'tmax': {'needs': ['target_max'], 'op': ['assign', 'target_max', 40]},
+        },
+        'quick_mutations': ['setmin', 'setmax', 'tmax'],
+    },
     # main unit, status enum extension, Limit parameters (check_ functions are attached to the defining class)
     'units': {
         'prelude': [],
@@ -461,6 +508,26 @@ def dtexp(dt):
         return f'exc:{exc_name(e)}'
 
 
+def class_wire_name(aobj):
+    """the name under which modules of the class export the accessible (export=True is resolved as Accessible.fixExport does it:
+    Command.clone resolves it on the class-level object only at the first instantiation)"""
+    from frappy.params import PREDEFINED_ACCESSIBLES
+    e = getattr(aobj, 'export', None)
+    if e is True:
+        name = getattr(aobj, 'name', None)
+        return name if PREDEFINED_ACCESSIBLES.get(name) is not None else f'_{name}'
+    return repr(e) if not isinstance(e, str) else e
+
+
+def registries():
+    """the module-global registries of frappy a class definition can write to (wrapperClasses is keyed by class: by design)"""
+    from frappy import params, rwhandler
+    from frappy.lib import generalConfig
+    return {'PREDEFINED_ACCESSIBLES': sorted(params.PREDEFINED_ACCESSIBLES),
+            'rwhandler.Handler.method_names': len(rwhandler.Handler.method_names),
+            'generalConfig.defaults': sorted(generalConfig.defaults)}
+
+
 def own_properties(aobj):
     from frappy.datatypes import DataType
     res = []
@@ -493,6 +560,7 @@ class World:
         # configuration j gets a new outer dict, the inner per-accessible Param objects are the same objects
         self.cfgobjs = {}
         self.cfgsnap = {}
+        self.registry_changes = []
         for cid in self.fam['prelude']:
             self.define(cid)
 
@@ -510,11 +578,16 @@ class World:
     def define(self, cid):
         DIRTY[0] = True
         self.transitions += 1
+        before = registries()
         try:
             self.env[cid] = self.G.make_class(cid, self.fam['classes'][cid], self.env)
         except Exception as e:
             self.env[cid] = None
             self.deferr[cid] = exc_name(e)
+        after = registries()
+        # a registry changed by a class definition is the mechanism of an order dependence: latent, counted; a violation only
+        # when an observable difference follows (differential observation)
+        self.registry_changes += [k for k in before if before[k] != after[k]]
 
     def new(self, cid, cfgid):
         self.transitions += 1
@@ -641,7 +714,7 @@ class World:
         acc = getattr(cls, 'accessibles', None)
         if acc is None:     # plain mixin (not a frappy class): it has no description of its own
             return {'plain-mixin': True}
-        export = [[name, safe(aobj.for_export)] for name, aobj in acc.items()]
+        export = [[name, safe(aobj.for_export), class_wire_name(aobj)] for name, aobj in acc.items()]
         # the properties a class hands on to subclasses defined later (ownProperties of its accessibles)
         own = [[name, own_properties(aobj)] for name, aobj in acc.items()]
         props = []
@@ -1119,6 +1192,8 @@ def evaluate(family, steps, part, ref, parent=None):
         aliases = world.alias_findings()
         if world.latent:
             part.outcomes['alias:latent(datatype of the same accessible shared by class and subclass)'] += 1
+        for regname in set(world.registry_changes):
+            part.outcomes[f'latent:global registry {regname} changed by a class definition'] += 1
         impure = [world.observe_inst_impure(k) for k in range(len(world.insts))]
         for k, inst in enumerate(world.insts):
             ent = ('inst', k)
@@ -1357,7 +1432,7 @@ def run(ctx):
                 'requests executed; traces = entity observations compared with the reference' % (MAX_INSTANCES, json.dumps(menus)))
     ctx.coverage.update(bound_completed='; '.join(f'{f}: ' + ', '.join(f'{v} menus to {d} steps' for v, d, _m in pl[f]) for f in FAMILIES),
                         families={f: {'classes': list(FAMILIES[f]['classes']), 'prelude': FAMILIES[f]['prelude']} for f in FAMILIES})
-    ctx.assume('class menus, configurations and mutations outside the seven families are not covered; classes of different families '
+    ctx.assume('class menus, configurations and mutations outside the eight families are not covered; classes of different families '
                'are never combined in one program',
                'prelude classes of the mixin family are defined in a fixed order before the first step',
                'the reference ("alone") build runs in a child forked from a process that imported frappy but never defined a menu class')
